@@ -255,6 +255,41 @@ def h_sctp_two_data(ctx, role):
         ctx.observe("cum", t._last_received_tsn)
 
 
+def h_sctp_init_then_valid(ctx, role):
+    """A stray / duplicated INIT (well formed, verification tag 0, every field symbolic) reaches an
+    ESTABLISHED association; the peer's next two genuine messages must still be delivered."""
+    with Env(crc=(lambda d: 0) if sx.active() else None) as env:
+        t, ch = _mk_transport(env, "established_server" if role == "server" else "established_client")
+        cid = 0 if t.is_server else 1
+        log = []
+        ch.on("message", lambda m: log.append(m))
+        init = sctp.InitChunk()
+        init.initiate_tag = ctx.int("initiate_tag", 0, 0xFFFFFFFF)
+        init.advertised_rwnd = ctx.int("rwnd", 0, 0xFFFFFFFF)
+        init.outbound_streams = ctx.int("os", 0, 65535)
+        init.inbound_streams = ctx.int("is", 0, 65535)
+        init.initial_tsn = ctx.int("initial_tsn", 0, 0xFFFFFFFF)
+        data = sctp.serialize_packet(5000, 5000, 0, init)
+        if not sx.active():
+            data = _crc_patch(data)
+        with sx.timelimit(ctx, 2.0, "hang:work-out-of-proportion"):
+            sx.run(t._handle_data(data))
+            env.drain()
+        for tsn, ssn, payload in ((2000, 0, b"a"), (2001, 1, b"b")):
+            c = sctp.DataChunk(flags=3)
+            c.tsn, c.stream_id, c.stream_seq, c.protocol, c.user_data = tsn, cid, ssn, 53, payload
+            data = sctp.serialize_packet(5000, 5000, 0x11223344, c)
+            if not sx.active():
+                data = _crc_patch(data)
+            with sx.timelimit(ctx, 2.0, "hang:work-out-of-proportion"):
+                sx.run(t._handle_data(data))
+                env.drain()
+        ctx.reach("valid-after-init-handled")
+        ctx.check(t._association_state == State.ESTABLISHED, "association-still-established")
+        ctx.check(log == [b"a", b"b"], "valid-traffic-after-a-stray-init-is-delivered-in-order", repr(log))
+        ctx.observe("n", len(log))
+
+
 def h_sctp_then_valid(ctx, role, unordered):
     """'... and processes subsequent valid traffic normally': one well-formed but nonsensical
     complete DATA message (any TSN, any stream sequence number, valid tag) on an open channel's
@@ -661,6 +696,7 @@ HARNESSES = {
     ),
     "sctp-two-data": Harness("sctp-two-data", h_sctp_two_data, lambda tier: [{"role": r} for r in ("client", "server")], style="NC (structure-aware)", bounds="two DATA chunks with independent symbolic 32-bit TSNs, flags 0..7, stream sequence 0..1", encoded=ENC_SCTP, stubs=STUBS, opts=NC_OPTS, twin="two-data-handled"),
     "sctp-then-valid": Harness("sctp-then-valid", h_sctp_then_valid, lambda tier: [{"role": r, "unordered": u} for r in ("client", "server") for u in (False, True)], style="NC + delivery (structure-aware)", bounds="one complete DATA message with symbolic 32-bit TSN and stream sequence number 2..65535 (ordered or unordered), then two genuine ordered messages", encoded=ENC_SCTP, stubs=STUBS, opts=NC_OPTS, twin="valid-after-bogus-handled"),
+    "sctp-init-then-valid": Harness("sctp-init-then-valid", h_sctp_init_then_valid, lambda tier: [{"role": r} for r in ("client", "server")], style="NC + delivery (structure-aware)", bounds="one INIT with symbolic initiate tag, rwnd, stream counts and initial TSN on an ESTABLISHED association, then two genuine ordered messages", encoded=ENC_SCTP, stubs=STUBS, opts=NC_OPTS, twin="valid-after-init-handled"),
     "sctp-sack-gaps": Harness("sctp-sack-gaps", h_sctp_sack_gaps, lambda tier: [{"ngaps": g} for g in ((1, 2) if tier == "quick" else (1, 2, 8, 100))], style="NC (targeted, concrete large count)", bounds="SACK with up to 100 maximal gap blocks (0..65535), first block symbolic", encoded=ENC_SCTP, stubs=STUBS, opts=dict(NC_OPTS, path_timeout_s=20), twin="sack-handled"),
     "receiver": Harness("receiver", h_receiver, _recv_jobs, style="NC", bounds="real RTCRtpReceiver (video; VP8, H264 and their RTX), payload 0..8 (quick) / 0..12 symbolic bytes, timestamp/marker/arrival symbolic, payload type / sequence number / SSRC from a fixed set, fresh or one-packet-warm receiver", encoded=ENC_RTP, stubs=STUBS, opts=NC_OPTS, twin="rtp-packet-handled"),
     "dtls-dispatch": Harness("dtls-dispatch", h_dtls_dispatch, _dispatch_jobs, style="NC", bounds="RTP 12..20 (quick) / 2..28 B, RTCP 8..32 / 4..36 B; first two bytes fixed per job", encoded=ENC_RTP, opts=NC_OPTS, twin="dispatched"),
